@@ -98,3 +98,13 @@ Theorem expr_value : forall base all i p nm fn rt body,
     decode_le bytes = (eval base all body mod 256 ^ Z.of_nat n)%Z.
 Proof. exact expr_value_proof. Qed.
 Print Assumptions expr_value.
+
+(* The load-time guard: a module that MIR_load_module accepts has expr items only over genuine
+   expression functions (no call, no memory operand), and its lrefs have a function to refer to. *)
+Theorem load_check_ok : forall all,
+  load_check all = None ->
+  (forall nm fn, In (IExpr nm fn) all ->
+     exists rt body, nth_error all fn = Some (IFunc rt body) /\ expr_ok body = true) /\
+  ((exists it, In it all /\ is_lref it = true) -> exists it, In it all /\ is_gfunc it = true).
+Proof. exact load_check_ok_proof. Qed.
+Print Assumptions load_check_ok.
